@@ -11,7 +11,7 @@ from ..dataflow import bind_call, chain_key, fmt_origin, origins
 from ..loader import AnalysisError, ClassInfo, ConstInfo, FuncInfo
 from ..regexlang import sre_parse
 from ..report import Ctx
-from .common import all_guards, call_name, direct_guards, norm, reachable_functions, where
+from .common import all_guards, call_name, direct_guards, exclusive_helpers, norm, reachable_functions, where
 from .render import get_model
 
 TRANSFORM_MODULES = ("flowmark.transforms.doc_transforms", "flowmark.transforms.doc_cleanups")
@@ -761,7 +761,8 @@ def check_list_spacing_confinement(ctx: Ctx) -> None:
         for n in walk_no_nested(m.node):
             if isinstance(n, ast.Attribute) and n.attr == attr and isinstance(n.ctx, ast.Load):
                 readers.append(m)
-    ctx.ob("R-NONINT-spacing", f"{cls.qual} :: self.{attr} is read only by the list renderer", bool(readers) and all(m is lm for m in readers),
+    own = exclusive_helpers(prog, lm)
+    ctx.ob("R-NONINT-spacing", f"{cls.qual} :: self.{attr} is read only by the list renderer", bool(readers) and all(m is lm or m.qual in own for m in readers),
            f"the list-spacing mode may be consulted only where list tightness is decided; read in {sorted({m.name for m in readers})}",
            where(cls, cls.node))
     # it flows only into the tightness flag
